@@ -283,7 +283,11 @@ def _check_invariance(ctx, case):
     learn = list(case["learn"])
     # non-trivial when at least two training patterns are certain (so that batch size 1 gives >= 2
     # batches against the one full batch): J - round(J * val_ratio) >= 2
-    ctx.record(case, J - int(round(J * float(case["val_ratio"]))) >= 2, _geom_classes("inv", case) + ["inv:learn_" + "+".join(learn)])
+    soft = case.get("soft") or {}
+    classes = _geom_classes("inv", case) + ["inv:learn_" + "+".join(learn)]
+    classes.append("inv:soft_constraints_active" if soft else "inv:default_constraints")
+    classes += ["inv:soft_%s_%s" % (m, k) for m in sorted(soft) for k in sorted(soft[m])]
+    ctx.record(case, J - int(round(J * float(case["val_ratio"]))) >= 2, classes)
     Rec = _recording_sgd()
     tol = TOL[hi]
 
@@ -296,7 +300,17 @@ def _check_invariance(ctx, case):
             sinks = {k: [] for k in learn}
             opt = {k: {"type": Rec, "lr": 0.0, "sink": sinks[k]} for k in learn}
             with ctx.sut(case, "reconstruct(num_iters=1, reset=True, batch_size=%r)" % (b,)):
-                pt.reconstruct(num_iters=1, reset=True, optimizer_params=opt, batch_size=b, loss_type=case["loss_type"])
+                # soft constraints: reconstruct adds the (parameter-only) soft-constraint loss to every batch
+                # loss, so with frozen parameters the reported epoch loss is mean(consistency) + C for
+                # every batch size -- the same relation, applied to the loss reconstruct reports
+                pt.reconstruct(
+                    num_iters=1,
+                    reset=True,
+                    optimizer_params=opt,
+                    constraints={m: dict(v) for m, v in soft.items()},
+                    batch_size=b,
+                    loss_type=case["loss_type"],
+                )
                 losses = np.asarray(pt.iter_losses, dtype=np.float64)
             if losses.shape != (1,):
                 _fail(case, "one epoch after reset recorded %d iteration losses" % losses.size)
@@ -412,10 +426,12 @@ def _check_determinism(ctx, case):
                 vlosses = ref.hexes(pt.val_iter_losses)
             return losses, vlosses, spy.take()
 
-        first_reset = bool(case["first_reset"])
-        classes = _geom_classes("det", case) + ["det:opt_" + case["opt"]]
+        # history 1: a fresh instance, first call WITHOUT reset (uses the generators exactly as the
+        # constructors seeded them)
+        classes = _geom_classes("det", case) + ["det:opt_" + case["opt"], "det:rng_" + case.get("rng_form", "int")]
+        classes.append("det:seed_ge_2^32" if int(case["seed"]) >= 2**32 else "det:seed_lt_2^32")
         try:
-            la, va, logA = run(A, spyA, first_reset, True, "reconstruct (instance 1)")
+            la, va, logA = run(A, spyA, False, True, "reconstruct (fresh instance, no reset)")
             epochs = _epochs(case, logA, J, iters, bs)
         except core.Violation:
             ctx.record(case, True, classes)
@@ -433,21 +449,27 @@ def _check_determinism(ctx, case):
         if len(la) != iters:
             _fail(case, "reconstruct(num_iters=%d) recorded %d iteration losses" % (iters, len(la)))
 
-        lc, vc, logC = run(C, spyC, first_reset, True, "reconstruct (instance 2, same seeds)")
+        # history 2: a second fresh instance built from the same seeds; its first call is made with or
+        # without reset=True (drawn) -- either way it is "a run started from the same seed"
+        first_reset = bool(case["first_reset"])
+        how = "first call with reset=True" if first_reset else "no reset"
+        lc, vc, logC = run(C, spyC, first_reset, True, "reconstruct (second instance, same seeds, %s)" % how)
         if logA != logC:
-            _fail(case, "two instances built from the same seeds visit the patterns in a different order")
+            _fail(case, "two instances built from the same seeds (second one: %s) visit the patterns in a different order" % how)
         if la != lc:
-            _fail(case, "two instances built from the same seeds give different iter_losses: %s vs %s" % (_show(la), _show(lc)))
+            _fail(case, "two instances built from the same seeds (second one: %s) give different iter_losses: %s vs %s" % (how, _show(la), _show(lc)))
         if va != vc:
-            _fail(case, "two instances built from the same seeds give different iter_val_losses: %s vs %s" % (_show(va), _show(vc)))
+            _fail(case, "two instances built from the same seeds (second one: %s) give different val_iter_losses: %s vs %s" % (how, _show(va), _show(vc)))
 
+        # history 3: the first instance again after reconstruct(reset=True): fresh-run-without-reset vs
+        # run-after-reset
         la2, va2, logA2 = run(A, spyA, True, bool(case["repass_opt"]), "reconstruct(reset=True) re-run")
         if logA2 != logA:
-            _fail(case, "after reconstruct(reset=True) the patterns are visited in a different order than in the first run")
+            _fail(case, "after reconstruct(reset=True) the patterns are visited in a different order than in the fresh run made without reset")
         if la2 != la:
-            _fail(case, "reconstruct(reset=True) does not reproduce the run's own iter_losses: %s vs %s" % (_show(la), _show(la2)))
+            _fail(case, "reconstruct(reset=True) does not reproduce the iter_losses of the fresh run made without reset: %s vs %s" % (_show(la), _show(la2)))
         if va2 != va:
-            _fail(case, "reconstruct(reset=True) does not reproduce the run's own iter_val_losses: %s vs %s" % (_show(va), _show(va2)))
+            _fail(case, "reconstruct(reset=True) does not reproduce the val_iter_losses of the fresh run made without reset: %s vs %s" % (_show(va), _show(va2)))
 
 
 def _show(hx):
@@ -563,7 +585,7 @@ def _soft(draw, S):
 @st.composite
 def _problem(draw, loss_type=None, seeds=SEEDS, soft=False):
     val = draw(st.sampled_from([False, False, True]))
-    S = draw(st.sampled_from([1, 1, 2, 3] if soft else [1, 1, 2]))
+    S = draw(st.sampled_from([1, 2, 3] if soft else [1, 1, 2]))
     c = {
         "R": draw(st.integers(3, 7)),
         "C": draw(st.integers(3, 7)),
